@@ -160,10 +160,31 @@ def c01(ctx):
             if ks:
                 r = lrecs[o['idx'] - 1]
                 acc.failures.append({'kinds': ['panic' if k.startswith('parse-') else k for k in ks], 'input': ctx.t.text_of(r['i']), 'i': r['i'], 'stage': 'c01long'})
+    # T: LONG chains (100 .. 4097 operands of one operator, and mixtures): the shape of the returned tree (pre-order
+    # sequence of node kinds) against the grammar of the specification applied to the token list
+    trc = '%s/c01chains.ndjson' % ctx.work
+    wd = ctx.t.record(['record-parse', '--mode', 'chains'] + (['--few'] if ctx.quick else []), trc, timeout=1800)
+    crecs = [json.loads(l) for l in open(trc) if l.startswith('{')]
+    stc, cver = ctx.t.validate_trace('c01chains', 'Trace_Pre', trc, 3000)
+    if len(cver) != len(crecs):
+        raise ctx.t.ToolError('Trace_Pre judged %d of %d records' % (len(cver), len(crecs)))
+    acc.add_stage('c01chains', stc, len(crecs), [{'input': ctx.t.text_of(crecs[0]['i'])[:120] + ' ...', 'operands': crecs[0]['n']}], {'sizes': sorted(set(r['n'] for r in crecs))})
+    acc.distinct += len(crecs)
+    for v in cver:
+        if 'recorder-tokens-disagree-with-text' in v['kinds']:
+            raise ctx.t.ToolError('the chain recorder gave a token list that is not the text it gave (record %d)' % v['idx'])
+        if v['kinds']:
+            r = crecs[v['idx'] - 1]
+            acc.failures.append({'kinds': v['kinds'], 'input': ctx.t.text_of(r['i'])[:400] + ' ...', 'i': r['i'], 'operands': r['n'], 'stage': 'c01chains'})
+    for f in wd:
+        f['stage'] = 'c01chains'
+        acc.failures.append(f)
+    # the layout with one word per line (a reader with comment or continuation lines changes what the words are)
+    g_parse(ctx, acc, 'c01lines', 'MC_C06', cfg(['MaxDev = 0', 'MaskSet = {0}'], ['EmitLines']), PARSE_KINDS_TREE)
     # T: recorded executions on random well-formed expressions and long word sequences
     t_parse(ctx, acc, 'c01t_rec', ['--mode', 'c01', '--count', str(pick(ctx, 4000, 40000)), '--seed', str(ctx.seed)], PARSE_KINDS_TREE)
     return result('model_checking', acc, True,
-                  'all word sequences over {( ) ! , -a -and -o -or -true "-name x" -print} up to length %d joined by single blanks (TLC state graph), all trees up to size %d with 14 redundant-parenthesis masks, plus seeded random expressions (depth<=8) and word sequences (7..40 words); distinct = distinct inputs with a specified verdict' % (glen, msize),
+                  'all word sequences over {( ) ! , -a -and -o -or -true "-name x" -print} up to length %d joined by single blanks (TLC state graph), all trees up to size %d with 14 redundant-parenthesis masks, plus chains of 100..4097 operands (shape of the tree compared through its pre-order sequence), one-word-per-line layouts, seeded random expressions (depth<=8) and word sequences (7..40 words); distinct = distinct inputs with a specified verdict' % (glen, msize),
                   ['oracle: Grammar.tla Decl (last lowest-precedence split), checked equal to the precedence-climbing transcription Climb on every token sequence up to the bound'])
 
 
@@ -539,7 +560,7 @@ def c04(ctx):
     binp = ctx.t.build('dev')
     mlen = pick(ctx, 2, 3)
     trace = '%s/c04.ndjson' % ctx.work
-    cmd = ctx.t.tlc_cmd('c04_gen', 'MC_C04', cfg(['MaxLen = %d' % mlen], ['EmitTree', 'EmitSingles', 'EmitAscii']), workers=8)
+    cmd = ctx.t.tlc_cmd('c04_gen', 'MC_C04', cfg(['MaxLen = %d' % mlen], ['EmitTree', 'EmitSingles', 'EmitAscii', 'EmitOffsets']), workers=8)
     tl = subprocess.Popen(cmd, cwd=ctx.t.SPEC, stdout=subprocess.PIPE, stderr=subprocess.STDOUT)
     with open(trace, 'w') as f:
         rp = subprocess.run([binp, 'compile-trees'], stdin=tl.stdout, stdout=f, stderr=subprocess.PIPE, text=True, timeout=1800)
